@@ -13,8 +13,8 @@ LEVEL_TEXT = ("Lean 4 theorems for every tuple of operand arrays (0..n rows each
               "cumsum gather builder; for ragged, 1-D and 2-D ndarray inputs) and the padded-matrix conversion (clamped index matrix, gather, overwrite of the padding cells "
               "found through a view of mostly empty rows) equal their list-of-rows meaning. Tied to the code by correspondence on "
               "exhaustive small shapes x all masks on <= 6 cells x all in-row windows, with distinct cells.")
-LEVEL_NOTE = ("Trusted: Lean kernel (+ standard axioms); hand models (tied by correspondence); empty_like is "
-              "correspondence-only; windows that start outside their row are outside the property.")
+LEVEL_NOTE = ("Trusted: Lean kernel (+ standard axioms); hand models (tied by correspondence); empty_like's content is arbitrary "
+              "by numpy's definition: only its geometry is stated (C08_empty_like) and compared; windows that start outside their row are outside the property.")
 TECHNIQUE = "Lean 4 proof of structural functions = list-of-rows spec; model/implementation correspondence"
 DESIGN_REF = "7"
 LEAN_MODULES = ["NpsVerif.Props.C08A", "NpsVerif.Props.C08B", "NpsVerif.Props.C08C"]
@@ -24,7 +24,7 @@ RULE = ("cases = function (concatenate axis 0 / -1, zeros/ones/empty_like, nonze
         "plus mask objects with an in-place history (selected once, changed by &= / |= / ^= / logical_not(out=) / assignment, selecting again), np.where(mask, x, 0) with non-finite cells under a false mask, and every ragged_slice call made twice with the same bound arrays (which must stay unchanged); "
         "distinct = distinct (function, shapes, mask/window); non-trivial = at least one cell")
 EXHAUSTIVE = {"quick": False, "thorough": False}
-CORRESPONDENCE_ONLY = ["empty_like (shape only)", "dtype tags"]
+CORRESPONDENCE_ONLY = ["dtype tags"]
 ASSUMPTIONS = []
 
 FUNCS = ["concat_rows", "concat_mixed", "concat_cols", "like", "nonzero", "where", "subset", "mask_index", "ragged_slice", "padded", "ragged_slice_nd"]
